@@ -1,0 +1,102 @@
+//go:build verif
+
+package main
+
+import (
+	"fmt"
+	"mltwist/internal/deps"
+	"mltwist/internal/emulator"
+	"mltwist/internal/state"
+	"mltwist/internal/state/memory"
+	"mltwist/pkg/model"
+	"strings"
+)
+
+// End-to-end observation of property C05: moves, then emulator.Step over the
+// moved code.
+//
+//	depsemu <seed> <entry> <n> <instruction>... <k> <op>...
+//
+// The program and the operations are those of "deps". The code is built twice;
+// the operations are applied to one copy only. Every block of the moved copy is
+// then run by the real emulator from its begin for as many steps as it has
+// instructions, and so is the block with the same begin address of the
+// untouched copy, both from the machine state given by <seed> (every register
+// and memory byte is supplied by the deterministic provider of "emu").
+//
+// Result: "err:<class>" when NewCode fails, otherwise
+//
+//	<nblocks> <accepted moves> | B <begin> <num> ;; <run of the original> ;; <run of the moved block> | ...
+//
+// where a run is "ok <dumpState>", "err@<step>" (Step returned an error) or
+// "PANIC".
+func depsemuRun(code *deps.Code, begin model.Addr, n int, seed uint64) string {
+	return depsemuProtect(func() string {
+		prov := &semuProvider{seed: seed}
+		st := &state.State{Regs: state.NewRegMap(), Mems: memory.MemMap{}}
+		em := emulator.New(code, begin, prov, st)
+		for i := 0; i < n; i++ {
+			if _, err := em.Step(); err != nil {
+				return fmt.Sprintf("err@%d", i)
+			}
+		}
+		return "ok " + dumpState(em.State)
+	})
+}
+
+// depsemuProtect is protect with the class of the panic in the answer.
+func depsemuProtect(f func() string) (res string) {
+	defer func() {
+		if r := recover(); r != nil {
+			if pe, ok := r.(parseError); ok {
+				panic(pe)
+			}
+			msg := fmt.Sprint(r)
+			if i := strings.IndexAny(msg, ":0123456789"); i > 0 {
+				msg = msg[:i]
+			}
+			res = "PANIC " + strings.ReplaceAll(strings.TrimSpace(msg), " ", "_")
+		}
+	}()
+	return f()
+}
+
+func init() {
+	register("depsemu", func(t *tokens) string {
+		seed := t.uint()
+		entry, seq := t.depsProgram()
+		k := t.int()
+		if k < 0 {
+			panic(parseError("bad op count"))
+		}
+		orig, err := deps.NewCode(entry, seq)
+		if err != nil {
+			t.rest()
+			return bbErrClass(err)
+		}
+		moved, err := deps.NewCode(entry, seq)
+		if err != nil {
+			panic("NewCode is not deterministic")
+		}
+		accepted := 0
+		for i := 0; i < k; i++ {
+			if depsOp(moved, t) == "ok" {
+				accepted++
+			}
+		}
+
+		parts := []string{fmt.Sprintf("%d %d", moved.Len(), accepted)}
+		for bi := 0; bi < moved.Len(); bi++ {
+			mb := moved.Index(bi)
+			ob, ok := orig.Address(mb.Begin())
+			if !ok || ob.Begin() != mb.Begin() || ob.Num() != mb.Num() {
+				parts = append(parts, fmt.Sprintf("B %d %d ;; nomatch ;; nomatch", uint64(mb.Begin()), mb.Num()))
+				continue
+			}
+			a := depsemuRun(orig, ob.Begin(), ob.Num(), seed)
+			b := depsemuRun(moved, mb.Begin(), mb.Num(), seed)
+			parts = append(parts, fmt.Sprintf("B %d %d ;; %s ;; %s", uint64(mb.Begin()), mb.Num(), a, b))
+		}
+		return strings.Join(parts, " | ")
+	})
+}
